@@ -258,11 +258,12 @@ func BuildSelect(query *Query, slct *sqlparser.Select) error {
 }
 
 func BuildUnion(query *Query, expr *sqlparser.Union) error {
-	leftStatement := expr.Left.(*sqlparser.Select)
-	leftStatement.With = expr.With
-	rightStatement := expr.Right.(*sqlparser.Select)
-	rightStatement.With = expr.With
-	left, err := Prepare(query.data, leftStatement, query.options)
+	// either side may itself be a union (chains associate to the left)
+	if expr.With != nil {
+		expr.Left.SetWith(expr.With)
+		expr.Right.SetWith(expr.With)
+	}
+	left, err := Prepare(query.data, expr.Left, query.options)
 	if err != nil {
 		return err
 	}
@@ -270,7 +271,7 @@ func BuildUnion(query *Query, expr *sqlparser.Union) error {
 	if err != nil {
 		return err
 	}
-	right, err := Prepare(query.data, rightStatement, query.options)
+	right, err := Prepare(query.data, expr.Right, query.options)
 	if err != nil {
 		return err
 	}
@@ -291,8 +292,10 @@ func BuildUnion(query *Query, expr *sqlparser.Union) error {
 	slice = append(slice, leftDataArray...)
 	slice = append(slice, rightDataArray...)
 	query.from = slice
+	// the combined rows pass through unchanged; UNION (without ALL) removes duplicates
 	query.selectDefinition = sqlparser.SelectExprs{}
-	query.selectDefinition.Exprs = make([]sqlparser.SelectExpr, 0)
+	query.selectDefinition.Exprs = []sqlparser.SelectExpr{&sqlparser.StarExpr{}}
+	query.distinct = expr.Distinct
 	err = BuildLimit(query, expr.Limit)
 	if err != nil {
 		return err
